@@ -50,8 +50,8 @@ INTSPEC.update({
     "remainder": [N, "4"], "copysign": [N, f"({N} - 2)"], "nextafter": [N, "100"], "nexttoward": [N, "100"], "fdim": [N, "3"],
     "fmax": [N, "3"], "fmin": [N, "3"], "fma": [N, "2", N], "abs": [f"({N} - 3)"],
 })
-# abs(int) inside a division is the recorded finding abs-int-division (C01): that one cell is left out, and counted
-INT_ARITH_EXCLUDED = {"abs"}
+# (abs(int) inside a division was the recorded finding abs-int-division until the /repo fix; the cell is generated now)
+INT_ARITH_EXCLUDED = set()  # (abs(int) inside a division was a recorded finding until /repo fix: abs of an int is typed int)
 KNOWN_UNCALLABLE = {"remquo": "documented, but std::remquo needs an int* third argument that no query can supply"}
 README_LIST = ["sin", "cos", "tan", "acos", "asin", "atan", "atan2", "sinh", "cosh", "tanh", "asinh", "acosh", "atanh", "exp", "ldexp", "log",
                "ln", "log10", "exp2", "expm1", "ilogb", "log1p", "log2", "scalbn", "scalbln", "pow", "sqrt", "cbrt", "hypot", "erf", "erfc",
@@ -253,7 +253,6 @@ def run(ctx: Ctx):
         payloads.append((derive_seed(ctx.seed, "C12inc", be), be, "include-alone", ctx.deadline, 0))
     for st_ in run_shards("vf.props.C12", "worker", payloads):
         ctx.stats.merge(st_)
-    ctx.stats.excluded["abs(int)-inside-division (known finding abs-int-division)"] += len(INT_ARITH_EXCLUDED) * len(BACKENDS)
     ctx.stats.extra["names_in_readme_list"] = len(README_LIST)
     ctx.stats.extra["names_enumerated"] = len(SPEC)
     ctx.stats.extra["names_recorded_uncallable"] = sorted(KNOWN_UNCALLABLE)
